@@ -8,6 +8,8 @@
 (*   decoding extracts exactly the components the text denotes                *)
 (*   kind "viastamp": the decoded Via line after the proxy's own stamping of   *)
 (*   its top entry (received / rport) - everything else re-encoded as received *)
+(*   kind "afteruse": the same list text decoded a second time after the first  *)
+(*   decoding had its top entry popped - still the whole list                   *)
 EXTENDS ProxyOps, Json, IOUtils
 Trace == ndJsonDeserialize(IOEnv.TRACE_FILE)
 VARIABLE l
@@ -29,6 +31,9 @@ Verdict(e) ==
          ELSE IF e.enc2 # e.enc1 THEN "P:C14:encode-decode-encode-is-not-a-fixpoint"
          ELSE IF e.acc.seq # e.want.seq \/ e.acc.method # e.want.method THEN "P:C14:decoding-does-not-extract-what-the-text-denotes"
          ELSE ""
+    ELSE IF e.kind = "afteruse"
+    THEN IF (IF e.hdr = "Via" THEN ViaSeqEq(e.re1, e.conc) ELSE RtSeqEq(e.re1, e.conc)) THEN ""
+         ELSE "P:C14:list-decoded-again-after-an-earlier-decoding-was-consumed-is-re-encoded-with-loss"
     ELSE IF e.kind = "viastamp"
     THEN LET p1 == SetParam(e.conc[1].params, "received", e.stamp.ip)
              p2 == IF HasParam(p1, "rport") THEN SetParam(p1, "rport", e.stamp.port) ELSE p1
